@@ -162,6 +162,82 @@ theorem bindList_rest {σ : State} {b : Addr} {vals : List SVal} (n : Nat) (sc :
   | crash w σ1 => rfl
   | timeout => rfl
 
+/-! ### composition helpers -/
+
+theorem res_bind_assoc' {α β γ} (r : Res α) (f : α → State → Res β) (g : β → State → Res γ) :
+    (r.bind f).bind g = r.bind fun a σ => (f a σ).bind g := by
+  cases r <;> rfl
+
+theorem res_bind_congr {α β} {r : Res α} {f g : α → State → Res β} (h : ∀ a σ, r = .ok a σ → f a σ = g a σ) :
+    r.bind f = r.bind g := by
+  cases r with
+  | ok a σ => exact h a σ rfl
+  | err e σ => rfl
+  | crash w σ => rfl
+  | timeout => rfl
+
+/-- binding a row of names leaves every list and object cell as it was -/
+theorem bindVars_heap {σ σ' : State} {sc : List Addr} {names names' : List (List Char)} {decl : Bool}
+    {l : List ((List Char × Loc) × SVal)} (h : bindVars σ sc names decl l = .ok names' σ') :
+    (∀ b, σ'.getList b = σ.getList b) ∧ (∀ b, σ'.getObj b = σ.getObj b) ∧ σ'.out = σ.out := by
+  induction l generalizing σ names with
+  | nil => simp only [bindVars] at h; cases h; exact ⟨fun _ => rfl, fun _ => rfl, rfl⟩
+  | cons p r ih =>
+    obtain ⟨⟨x, lx⟩, v⟩ := p
+    simp only [bindVars] at h
+    cases hres : bindNextName 0 σ sc names x lx v none decl with
+    | ok n1 σ1 =>
+      rw [hres] at h
+      simp only [Res.bind] at h
+      obtain ⟨a1, a2, a3⟩ := bindNextName_heap hres
+      obtain ⟨b1, b2, b3⟩ := ih h
+      exact ⟨fun b => (b1 b).trans (a1 b), fun b => (b2 b).trans (a2 b), b3.trans a3⟩
+    | err e σ1 => rw [hres] at h; cases h
+    | crash w σ1 => rw [hres] at h; cases h
+    | timeout => rw [hres] at h; cases h
+
+/-- the general form of `bindList_vars`: a row of names followed by more items (`tail`); in a collecting pattern
+    the row must end before the collecting position -/
+theorem bindList_vars_tail {σ : State} {b : Addr} {vals : List SVal} (sc : List Addr) (lhsLoc : Loc) (decl : Bool)
+    (collect : Bool) (lhsLen : Nat) (tail : List ListItem)
+    (vars : List (List Char × Loc)) (names : List (List Char)) (i k : Nat)
+    (hb : σ.getList b = some vals) (hlen : i + vars.length ≤ vals.length)
+    (hc : collect = true → i + vars.length ≤ lhsLen - 1) :
+    bindList (vars.length + (k + 1)) σ sc names (varItems vars ++ tail) collect lhsLoc b decl i lhsLen =
+      (bindVars σ sc names decl (vars.zip (vals.drop i))).bind fun names' σ1 =>
+        bindList (k + 1) σ1 sc names' tail collect lhsLoc b decl (i + vars.length) lhsLen := by
+  induction vars generalizing σ names i with
+  | nil =>
+    simp only [varItems, List.map_nil, List.nil_append, List.length_nil, Nat.zero_add, List.zip_nil_left, bindVars,
+      Res.bind, Nat.add_zero]
+  | cons p r ih =>
+    obtain ⟨x, l⟩ := p
+    simp only [List.length_cons] at hlen hc
+    have hi : i < vals.length := by omega
+    have e1 : (((x, l) :: r).length + (k + 1)) = (r.length + (k + 1)) + 1 := by simp only [List.length_cons]; omega
+    have hnc : (collect && decide (i = lhsLen - 1)) = false := by
+      cases collect with
+      | false => rfl
+      | true => have := hc rfl; simp only [Bool.true_and, decide_eq_false_iff_not]; omega
+    rw [e1, varItems, List.map_cons, List.cons_append, bindList]
+    simp only [Bool.false_eq_true, if_false, hb, hnc, List.getElem?_eq_getElem hi]
+    have e2 : r.length + (k + 1) = (r.length + k) + 1 := by omega
+    rw [List.drop_eq_getElem_cons hi, List.zip_cons_cons, bindVars, res_bind_assoc']
+    conv => lhs; rw [e2, bindNext_var, bindNextName_fuel _ 0, ← e2]
+    cases hres : bindNextName 0 σ sc names x l vals[i] none decl with
+    | ok names' σ1 =>
+      simp only [Res.bind]
+      have hb1 : σ1.getList b = some vals := by rw [(bindNextName_heap hres).1 b]; exact hb
+      have := ih names' (i + 1) hb1 (by omega) (fun h => by have := hc h; omega)
+      rw [varItems] at this
+      rw [this]
+      have e3 : i + 1 + r.length = i + (r.length + 1) := by omega
+      simp only [e3, List.length_cons]
+      rfl
+    | err e σ1 => rfl
+    | crash w σ1 => rfl
+    | timeout => rfl
+
 /-! ### declaring a row of fresh names -/
 
 /-- names pairwise different, none of them `_` -/
